@@ -51,3 +51,22 @@ def chunks(seq, n):
     seq = list(seq)
     k = max(1, math.ceil(len(seq) / n))
     return [seq[i:i + k] for i in range(0, len(seq), k)]
+
+
+def long_family(N, alphabet="+-0"):
+    """A small structured family of long patterns: homopolymers, 2- and 3-block patterns cut at quarter points,
+    and periodic patterns of period 2, 3, 5, 8."""
+    out = []
+    for a in alphabet:
+        out.append(a * N)
+    cuts = sorted({N // 4, N // 2, (3 * N) // 4, 1, N - 1})
+    for a in alphabet:
+        for b in alphabet:
+            if a == b:
+                continue
+            for c in cuts:
+                out.append(a * c + b * (N - c))
+            out.append(a * (N // 3) + b * (N // 3) + a * (N - 2 * (N // 3)))
+    for unit in ("+-", "+0", "-0", "+-0", "++-", "+--", "++--0", "++++----", "+++00---"):
+        out.append((unit * (N // len(unit) + 1))[:N])
+    return out
